@@ -5,7 +5,17 @@
 (not with the library's message classes).  Commands outside the implemented set are answered
 with C1h (invalid command) — which is what a conforming controller without that function does.
 
-Two personalities: `full` (everything below) and `minimal` (IPM device global commands and chassis only).
+Personalities: `minimal` (IPM device global commands and chassis only), `plain` (every command below, two
+linear sensors, every configured channel has a link), `sdrtypes` (plain + one SDR of every record type of
+IPMI v2.0 ch. 43, most of which carry no ID string / no entity), `nonlinear` (plain + full sensors whose
+linearisation is 1/x, ln, log10 - with a raw reading of 0 or unused threshold bytes of 0 - sqrt, x^2, e^x),
+`full` (everything: both SDR sets, a base channel without link, the HPM.1 upgrade commands).  A conforming
+controller may be any of them.
+
+Faults (`faults`: request index -> fault): ('cc', code), ('timeout',) = IpmiTimeoutError, ('exc', name) = the
+interface raises that exception (a class of pyipmi.errors, or 'socket.timeout') as the library's real
+interfaces do (RMCP: socket.timeout / RetryError, ipmitool back-end: IpmiConnectionError ...).  Index -1 is
+the session set-up (`establish_session`), index -2 the session tear-down (`close_session`).
 
 `Iface20` is what `pyipmi.interfaces.create_interface` is replaced with: it records how it was
 created, the session it was asked to establish, and every request with the target it was
@@ -80,6 +90,103 @@ def sdr_compact(rid, number, name):
     return struct.pack('<HBBB', rid, 0x51, 0x02, len(body)) + body
 
 
+def _sdr(rid, rtype, body):
+    return struct.pack('<HBBB', rid, 0x51, rtype, len(body)) + bytes(body)
+
+
+def sdr_full_lin(rid, number, name, lin, m, b=0, signed=False, thresholds=(0x64, 0x5a, 0x50, 0x02, 0x05, 0x0a),
+                 readable=0x3f):
+    """Full sensor record (table 43-1) with linearisation `lin` (byte 24) and factors M, B (K1 = K2 = 0)."""
+    body = bytes([
+        0x20, 0x00, number,
+        0x1d, 0x01,               # entity id (fan device), instance
+        0x7f, 0x68,
+        0x04, 0x01,               # sensor type fan, threshold
+        0x00, 0x00, 0x00, 0x00, readable, readable,   # assertion / deassertion masks, readable+settable thresholds
+        0x80 if signed else 0x00, 0x12, 0x00,   # units: analog data format, RPM, no modifier
+        lin & 0x7f,
+        m & 0xff, (m >> 2) & 0xc0,
+        b & 0xff, (b >> 2) & 0xc0,
+        0x00, 0x00,
+        0x00,
+        0x00, 0x00, 0x00,
+        0xff, 0x00,
+    ]) + bytes(thresholds) + bytes([0x00, 0x00, 0x00, 0x00, 0x00]) + _tl(name)
+    return _sdr(rid, 0x01, body)
+
+
+def sdr_event_only(rid, number, name):       # table 43-3
+    return _sdr(rid, 0x03, bytes([0x20, 0x00, number, 0x07, 0x01, 0x07, 0x6f, 0x00, 0x00, 0x00, 0x00]) + _tl(name))
+
+
+def sdr_entity_association(rid):             # table 43-4: container entity, flags, four contained entities
+    return _sdr(rid, 0x08, bytes([0x07, 0x01, 0x00, 0x03, 0x01, 0x03, 0x02, 0x00, 0x00, 0x00, 0x00]))
+
+
+def sdr_device_relative_ea(rid):             # table 43-5
+    return _sdr(rid, 0x09, bytes([0x07, 0x01, 0x20, 0x00, 0x00] + [0x20, 0x00, 0x03, 0x01] + [0x00] * 12 + [0x00] * 6))
+
+
+def sdr_generic_locator(rid, name):          # table 43-7
+    return _sdr(rid, 0x10, bytes([0x20, 0xa0, 0x00, 0x00, 0x00, 0x08, 0x00, 0x07, 0x01, 0x00]) + _tl(name))
+
+
+def sdr_fru_locator(rid, name):              # table 43-8
+    return _sdr(rid, 0x11, bytes([0x20, 0x01, 0x80, 0x00, 0x00, 0x10, 0x00, 0x07, 0x01, 0x00]) + _tl(name))
+
+
+def sdr_mc_locator(rid, name):               # table 43-9
+    return _sdr(rid, 0x12, bytes([0x82, 0x00, 0x00, 0xbf, 0x00, 0x00, 0x00, 0x07, 0x02, 0x00]) + _tl(name))
+
+
+def sdr_mc_confirmation(rid):                # table 43-10
+    return _sdr(rid, 0x13, bytes([0x82, 0x20, 0x01, 0x02, 0x34, 0x02, 0xa2, 0x3a, 0x00, 0x34, 0x12]) + bytes(range(16)))
+
+
+def sdr_bmc_channel_info(rid):               # table 43-11
+    return _sdr(rid, 0x14, bytes([0x11, 0x02, 0x00, 0x00, 0x00, 0x00, 0x00, 0x00, 0xff, 0xff, 0x00]))
+
+
+def sdr_oem(rid):                            # table 43-12: manufacturer id + OEM data
+    return _sdr(rid, 0xc0, bytes([0xa2, 0x3a, 0x00, 0xde, 0xad, 0xbe, 0xef]))
+
+
+def sdrs_of_every_type(first_id):
+    """(records, sensor readings) - every record type; the sensors among them are linear"""
+    r = first_id
+    return [sdr_entity_association(r), sdr_event_only(r + 1, 0x32, 'CPU Event'), sdr_device_relative_ea(r + 2),
+            sdr_generic_locator(r + 3, 'EEPROM'), sdr_fru_locator(r + 4, 'FRU1'), sdr_mc_locator(r + 5, 'MMC'),
+            sdr_mc_confirmation(r + 6), sdr_bmc_channel_info(r + 7), sdr_oem(r + 8),
+            sdr_full(r + 9, 0x33, 'Inlet Temp')], {0x33: [0x00, 0x20, 0xc0, 0x00]}
+
+
+# linearisation codes of table 43-1 byte 24
+LIN_LN, LIN_LOG10, LIN_EXP, LIN_1_X, LIN_SQR, LIN_SQRT = 1, 2, 4, 7, 8, 10
+
+
+def sdrs_nonlinear(first_id):
+    """(records, sensor readings): conforming full sensors with a non-linear conversion.  Raw 0 is an ordinary
+    reading (and the content of every threshold byte the sensor does not support)."""
+    r = first_id
+    none = (0, 0, 0, 0, 0, 0)
+    recs = [
+        sdr_full_lin(r, 0x40, 'Fan1 period', LIN_1_X, 1),                                    # reading 0
+        sdr_full_lin(r + 1, 0x41, 'Fan2 period', LIN_1_X, 1, thresholds=none, readable=0),   # reading ok, no thresholds
+        sdr_full_lin(r + 2, 0x42, 'Light ln', LIN_LN, 1, thresholds=none, readable=0),       # reading ok, no thresholds
+        sdr_full_lin(r + 3, 0x43, 'Sound log', LIN_LOG10, 1),                                # reading 0
+        sdr_full_lin(r + 4, 0x44, 'Flow sqrt', LIN_SQRT, 1),
+        sdr_full_lin(r + 5, 0x45, 'Power sqr', LIN_SQR, 2, b=1, signed=True),
+        sdr_full_lin(r + 6, 0x46, 'Gain exp', LIN_EXP, 1, thresholds=(5, 4, 3, 0, 1, 2)),
+    ]
+    readings = {0x40: [0x00, 0x00, 0xc0, 0x00], 0x41: [0x00, 0x64, 0xc0, 0x00], 0x42: [0x00, 0x10, 0xc0, 0x00],
+                0x43: [0x00, 0x00, 0xc0, 0x00], 0x44: [0x00, 0x09, 0xc0, 0x00], 0x45: [0x00, 0xfe, 0xc0, 0x00],
+                0x46: [0x00, 0x01, 0xc0, 0x00]}
+    return recs, readings
+
+
+PROFILES = ('full', 'minimal', 'plain', 'sdrtypes', 'nonlinear')
+
+
 class Bmc20(object):
     SEL = [
         bytes([0x01, 0x00, 0x02, 0x11, 0x22, 0x33, 0x44, 0x20, 0x00, 0x04, 0x01, 0x30, 0x01, 0x57, 0x64, 0x5a]),
@@ -94,8 +201,19 @@ class Bmc20(object):
         self.reservation = 0x1233
         self.fru = fru_image()
         self.sdrs = [sdr_full(1, 0x30, 'CPU Temp'), sdr_compact(2, 0x31, 'CPU Status')]
+        self.readings = {0x30: [0x00, 0x19, 0xc0, 0x00], 0x31: [0x00, 0x00, 0xc0, 0x80, 0x80]}
+        if profile in ('full', 'sdrtypes'):
+            recs, rd = sdrs_of_every_type(3)
+            self.sdrs += recs
+            self.readings.update(rd)
+        if profile in ('full', 'nonlinear'):
+            recs, rd = sdrs_nonlinear(0x20)
+            self.sdrs += recs
+            self.readings.update(rd)
+        self.linkless = profile == 'full'       # base channel 3 is configured but carries no link
         self.sel = list(self.SEL)
         self.chassis_controls = []
+        self.upgrade = {'action': None, 'block': 0, 'bytes': 0, 'last': (0x00, 0x00), 'activated': False}
 
     # -------------------------------------------------------------------------------------
     def handle(self, lun, netfn, data):
@@ -105,9 +223,8 @@ class Bmc20(object):
         self.requests.append((lun, netfn, data.hex()))
         f = self.faults.get(k)
         if f is not None:
-            if f[0] == 'timeout':
-                from pyipmi.errors import IpmiTimeoutError
-                raise IpmiTimeoutError()
+            if f[0] != 'cc':
+                raise_fault(f)
             return bytes([f[1]])
         if not data:
             return bytes([0xc7])
@@ -116,13 +233,15 @@ class Bmc20(object):
         fn = getattr(self, '_h_%02x_%02x' % (netfn & 0xff, data[0]), None) if 0 <= netfn < 256 else None
         if fn is None:
             return bytes([0xc1])
+        if self.profile != 'full' and netfn == 0x2c and 0x30 <= data[0] <= 0x35:
+            return bytes([0xc1])        # no HPM.1 upgrade agent
         if self.profile == 'minimal' and (netfn, data[0]) not in ((6, 1), (6, 2), (6, 3), (0, 1), (0, 2)):
             return bytes([0xc1])
         return bytes(fn(data[1:]))
 
     # ---- IPM device global (netfn App 06h) ----------------------------------------------
     def _h_06_01(self, d):      # Get Device ID, table 20-2
-        support = 0x01 | 0x02 | 0x04 | 0x08 | 0x80 if self.profile == 'full' else 0x80
+        support = 0x80 if self.profile == 'minimal' else 0x01 | 0x02 | 0x04 | 0x08 | 0x80
         return bytes([0x00, 0x20, 0x81, 0x81, 0x23, 0x02, support, 0xa2, 0x3a, 0x00, 0x34, 0x12,
                       0x01, 0x02, 0x03, 0x04])
 
@@ -181,16 +300,12 @@ class Bmc20(object):
     def _h_04_2d(self, d):       # Get Sensor Reading, table 35-15
         if len(d) != 1:
             return [0xc7]
-        if d[0] == 0x30:
-            return [0x00, 0x19, 0xc0, 0x00]
-        if d[0] == 0x31:
-            return [0x00, 0x00, 0xc0, 0x80, 0x80]
-        return [0xcb]
+        return self.readings.get(d[0], [0xcb])
 
     def _h_04_2a(self, d):       # Re-arm Sensor Events, table 35-13
         if len(d) < 2 or len(d) > 6:
             return [0xc7]
-        return [0x00] if d[0] in (0x30, 0x31) else [0xcb]
+        return [0x00] if d[0] in self.readings else [0xcb]
 
     # ---- storage (netfn 0Ah) ---------------------------------------------------------------
     def _h_0a_10(self, d):       # Get FRU Inventory Area Info, table 34-2
@@ -285,6 +400,8 @@ class Bmc20(object):
         ch, intf = d[1] & 0x3f, d[1] >> 6
         if intf == 0 and ch in (1, 2):
             return [0x00, 0x00, (intf << 6) | ch, 0x11, 0x00, 0x00, 0x01]
+        if intf == 0 and ch == 3 and self.linkless:
+            return [0x00, 0x00]         # the channel exists, no link on it: no Link Info / State bytes
         return [0xcc]
 
     def _h_2c_25(self, d):       # Get Power Channel Status (MTCA.0)
@@ -317,6 +434,72 @@ class Bmc20(object):
             return bytes([0x00, 0x00]) + b'APP20\x00\x00\x00\x00\x00\x00\x00'
         return [0x83]
 
+    # ---- HPM.1 upgrade (R1.0 ch. 3: 30h abort, 31h initiate, 32h upload block, 33h finish, 34h status, 35h activate)
+    def _done(self, cmd, cc):
+        self.upgrade['last'] = (cmd, cc)
+        return [cc, 0x00]
+
+    def _h_2c_30(self, d):       # Abort Firmware Upgrade
+        if not self._picmg(d, 0):
+            return [0xc7]
+        self.upgrade.update(action=None, block=0, bytes=0)
+        return self._done(0x30, 0x00)
+
+    def _h_2c_31(self, d):       # Initiate Upgrade Action: components mask, action
+        if not self._picmg(d, 2):
+            return [0xc7]
+        if d[1] & ~0x01 or d[2] > 3:
+            return self._done(0x31, 0xcc)
+        self.upgrade.update(action=d[2], block=0, bytes=0)
+        return self._done(0x31, 0x00)
+
+    def _h_2c_32(self, d):       # Upload Firmware Block: block number, data
+        if len(d) < 3 or d[0] != 0x00:
+            return [0xc7]
+        if self.upgrade['action'] not in (2, 3):
+            return self._done(0x32, 0xd5)
+        if d[1] != self.upgrade['block']:
+            return self._done(0x32, 0x82)      # invalid block number
+        self.upgrade['block'] = (d[1] + 1) & 0xff
+        self.upgrade['bytes'] += len(d) - 2
+        return self._done(0x32, 0x00)
+
+    def _h_2c_33(self, d):       # Finish Firmware Upload: component, image length
+        if not self._picmg(d, 5):
+            return [0xc7]
+        if self.upgrade['action'] not in (2, 3):
+            return self._done(0x33, 0xd5)
+        if d[1] != 0 or struct.unpack('<I', bytes(d[2:6]))[0] != self.upgrade['bytes']:
+            return self._done(0x33, 0x81)      # number of bytes received does not match
+        self.upgrade['action'] = None
+        return self._done(0x33, 0x00)
+
+    def _h_2c_34(self, d):       # Get Upgrade Status
+        if not self._picmg(d, 0):
+            return [0xc7]
+        return [0x00, 0x00, self.upgrade['last'][0], self.upgrade['last'][1]]
+
+    def _h_2c_35(self, d):       # Activate Firmware [rollback override policy]
+        if not (self._picmg(d, 0) or self._picmg(d, 1)):
+            return [0xc7]
+        self.upgrade['activated'] = True
+        return self._done(0x35, 0x00)
+
+
+def raise_fault(f):
+    """('timeout',) | ('exc', name): what an interface raises instead of returning a reply"""
+    import socket
+    import pyipmi.errors as E
+    if f[0] == 'timeout':
+        raise E.IpmiTimeoutError()
+    name = f[1]
+    if name == 'socket.timeout':
+        raise socket.timeout('timed out')
+    cls = getattr(E, name)
+    if name == 'CompletionCodeError':
+        raise cls(0xd5)
+    raise cls('injected: %s' % name)
+
 
 class Iface20(object):
     """Substituted interface: a recording front end of a `Bmc20`."""
@@ -340,9 +523,19 @@ class Iface20(object):
             'host': session.rmcp_host, 'port': session.rmcp_port, 'user': session.auth_username,
             'password': session.auth_password, 'priv': session.priv_level, 'auth_type': session.auth_type}
         self.events.append('session')
+        self._session_fault(-1)
 
     def close_session(self):
         self.events.append('close_session')
+        self._session_fault(-2)
+
+    def _session_fault(self, key):
+        f = self.bmc.faults.get(key)
+        if f is not None:
+            if f[0] == 'cc':
+                from pyipmi.errors import CompletionCodeError
+                raise CompletionCodeError(f[1])
+            raise_fault(f)
 
     def is_ipmc_accessible(self, target):
         return True
